@@ -47,6 +47,29 @@ AUTHORS = ["Ann", "K", "日本語の名前がとても長い人物です", "Kang
 GREP_PATHS = ["src/a.rs", "Makefile", "a b/c.txt", "x-1.y", "日本/f.py", "README"]
 
 
+OPTION_VALUES = [
+    ("--file-transformation", ["s§a§b§", "§", "s", "sx", "", "s/(/x/", "s/a/b", "s/src\\/(.*)/$1/g", "é/a/b/", "s//x/g", "s/./日/g"]),
+    ("--navigate-regex", ["", "(", "^", "日"]),
+    ("--wrap-left-symbol", ["", "日", "\u200b", "ab", "\t"]), ("--wrap-right-symbol", ["", "日", "ab"]),
+    ("--wrap-right-prefix-symbol", ["", "日"]), ("--wrap-right-percent", ["0", "100", "-1", "1e9", "nan", "x"]),
+    ("--line-numbers-left-format", ["{", "}", "{nm", "{nm:^}", "{nm:>999999}", "{xx}", "{nm:日^4}", "{nm:0}", "{np:^4}{nm:<0}", "%s"]),
+    ("--line-numbers-right-format", ["{np:>18446744073709551616}", "{np:-1}", "{np:^4.9}"]),
+    ("--hunk-label", ["", "日本語" * 20, "\x1b[31m"]), ("--right-arrow", ["", "\n"]), ("--tabs", ["0", "1", "200", "-1", "x"]),
+    ("--width", ["0", "-1", "variable", "18446744073709551615", "x", ""]), ("--max-line-length", ["0", "1", "-1", "x"]),
+    ("--max-line-distance", ["-1", "2", "nan", "inf", "x"]), ("--line-buffer-size", ["0", "-1", "x"]),
+    ("--minus-style", ["", "x", "red red red", "#", "#12345", "256", "-1", "syntax syntax", "raw omit", "bold " * 50]),
+    ("--map-styles", ["", "=>", "a=>b", "bold purple =>", "=> red", "bold purple => syntax magenta, x", ",,,"]),
+    ("--blame-palette", ["", "x", "#", "red blue " * 30]), ("--blame-format", ["{", "{x}", "{author:<-1}", "{timestamp:^999999}", ""]),
+    ("--blame-timestamp-format", ["%", "%Q", ""]), ("--blame-timestamp-output-format", ["%", "%Q"]),
+    ("--grep-separator-symbol", ["", "日本"]), ("--inline-hint-style", ["x y z w"]),
+    ("--features", ["", "x", "a b c", "side-by-side line-numbers decorations navigate"]),
+    ("--syntax-theme", ["", "x", "none"]), ("--default-language", ["", "x", "../../etc/passwd", "rs"]),
+    ("--paging", ["x"]), ("--true-color", ["x"]), ("--diff-stat-align-width", ["0", "-1", "x", "18446744073709551615"]),
+    ("--merge-conflict-begin-symbol", ["", "日", "ab"]), ("--hyperlinks-file-link-format", ["", "{", "{path", "{x}", "%"]),
+    ("--hyperlinks-commit-link-format", ["", "{commit", "{x}"]), ("--word-diff-regex", ["", "(", "\\", "(?=x)", "."]),
+    ("--tokenization-regex", ["", "("]),
+]
+
 SWEEP_DIFFS = [
     ("paired-ascii", "diff --git a/foo.txt b/foo.txt\nindex 1111111..2222222 100644\n--- a/foo.txt\n+++ b/foo.txt\n@@ -1,3 +1,3 @@\n"
                      " context line\n-old text here\n+new text here\n tail\n"),
@@ -189,6 +212,22 @@ def run(ctx, rep):
             for wrap in (["--wrap-max-lines", "unlimited"], ["--wrap-max-lines", "2"], ["--wrap-max-lines", "0"]):
                 for extra in ([], ["--line-numbers-left-format", "", "--line-numbers-right-format", ""]):
                     jobs.append((["--no-gitconfig", "--side-by-side", "--width", str(w)] + wrap + extra, diff.encode()))
+
+    # (2c) hostile option values: a clean refusal (exit 2 with a message) is fine, a panic / unreachable / hang is not
+    optjobs = []
+    small = SWEEP_DIFFS[1][1].encode()
+    for opt, vals in OPTION_VALUES:
+        for v in vals:
+            for extra in ([], ["--side-by-side"], ["--navigate", "--paging=never"]):
+                optjobs.append((["--no-gitconfig"] + extra + [opt + "=" + v], small))
+    for (args, data), (rc, out, err) in zip(optjobs, parallel_map(lambda j: ctx.run_delta(j[0], j[1], timeout=20), optjobs)):
+        rep.case(key=("opt", tuple(args)), nontrivial=True, sample=dict(level="option-value", args=args))
+        rep.count("optval:" + args[-1].split("=")[0])
+        site = classify_failure(rc, err)
+        e = err.decode("utf-8", "replace")
+        if site and not (rc == 2 and "panicked" not in e and "should not be possible" not in e and "unreachable" not in e):
+            rep.violation(site, f"delta {' '.join(args)} -> rc={rc} stderr={err[-300:].decode('utf-8', 'replace')!r}",
+                          dict(args=args, input_b64=b64(data)))
 
     def one(j):
         args, data = j
